@@ -448,4 +448,21 @@ def check_r02_6(repo: Repo, chk: Check) -> None:
            f'`{modp_}.parent is None` is tested' if root_ok else
            'a module without a parent passes the test: re-exporting a root module from a package that is documented in the same run calls reparent(), whose '
            '`assert isinstance(old_parent, CanContainImportsDocumentable)` fails - the run aborts', ca.loc)
-    chk.require('R02.6', 5)
+    # (f) ... and the ancestry walk of that function starts at the adopting scope ITSELF: a package that re-exports itself (`from pkg import sub; __all__ = ['sub']`
+    # inside pkg/sub/__init__.py) is its own "ancestor" in the sense that matters - moved into itself, fullName() recurses until the run aborts
+    walks = [w for w in ca.walk() if isinstance(w, ast.While) and any(isinstance(a, ast.Assign) and isinstance(a.value, ast.Attribute) and a.value.attr == 'parent' and
+                                                                        any(isinstance(t, ast.Name) and norm(a.value.value) == t.id for t in a.targets) for st in w.body for a in ast.walk(st))]
+    if not walks:
+        raise AnalysisError('R02.6: the ancestry walk (`anc = anc.parent`) of _canAdoptModule was not found')
+    for w in walks:
+        step = next(a for st in w.body for a in ast.walk(st) if isinstance(a, ast.Assign) and isinstance(a.value, ast.Attribute) and a.value.attr == 'parent')
+        wv = step.targets[0].id  # type: ignore[attr-defined]
+        inits = [a for a in ca.walk() if isinstance(a, (ast.Assign, ast.AnnAssign)) and a is not step and a.value is not None and
+                 any(isinstance(t, ast.Name) and t.id == wv for t in (a.targets if isinstance(a, ast.Assign) else [a.target]))]
+        scopep = ca.params()[0].arg if ca.is_static else ca.params()[1].arg
+        ok_w = bool(inits) and all(isinstance(a.value, ast.Name) and a.value.id == scopep for a in inits)
+        chk.ob('R02.6', 'pydoctor.astbuilder.ModuleVistor._canAdoptModule :: the ancestry walk starts at the adopting scope itself', ok_w,
+               f'`{wv} = {scopep}`' if ok_w else
+               f'the walk starts at `{norm(inits[0].value) if inits else "?"}`: the scope itself is never compared with the module, so a package that lists itself in its own '
+               '`__all__` is moved into itself and the next fullName() recurses until the run aborts with RecursionError', repo.loc(ca.mod, w))
+    chk.require('R02.6', 6)
